@@ -17,8 +17,10 @@ evaluated):
  trace(ast)    for the constructs whose meaning the statement names (and / or /
                ?. / switch / switchCase / selectCase / coalesce, literals,
                mapping rules, binders, per-element lambdas of the streaming
-               functions): models/interp.py extended with these constructs is
-               run and the ticks it performs are the prediction.
+               functions and of the generating functions generate /
+               generateMany, operands that fail): models/interp.py extended
+               with these constructs is run and the ticks it performs are the
+               prediction.
 
 A pattern is a list of items:  id  |  ('perm', [ids...], [ids...], ...) - the
 groups in any order (different lambdas applied to one element)  |
@@ -227,7 +229,31 @@ def _dict_set(e, env):
     return out
 
 
+# --- an operand that fails while it is evaluated ------------------------------------------------
+# ('raise', class name, operand): the operand is evaluated (its tick is logged), then the evaluation of
+# the whole sub-expression fails with an error of that class.  Nothing in the language catches an error,
+# so it leaves every construct it is raised in: nothing after it is evaluated, nothing again.
+RAISE_TEXT = {
+    'IndexError': '[%s][1]',                                    # list index out of range
+    'KeyError': "{a => %s}['b']",                               # dictionary key lookup
+    'StopIteration': '[%s].skip(1).first()',                    # first() of an empty collection
+    'ValueError': "int(str(%s) + 'x')",                         # int() of a non-numeric string
+    'TypeError': '[%s].skip(1).aggregate($1 + $2)',             # aggregate() of an empty collection without seed
+    'NoFunctionRegisteredException': '[%s, nosuchfunction()]',  # unknown function
+    'NoMatchingFunctionException': 'len(%s)',                   # no overload of a function accepts an integer
+    'NoMatchingMethodException': '%s.len()',                    # no overload of a method accepts an integer
+}
+RAISED = []        # classes of the errors raised by the last trace()
+
+
+def _raise(e, env):
+    I.ev(e[2], env)
+    RAISED.append(e[1])
+    raise Err('operand raises ' + e[1])
+
+
 I.EXT.update({
+    'raise': _raise,
     'and': _and, 'or': _or, 'not': _not, 'elvis': _elvis, 'switch': _switch, 'selectCase': _select_case,
     'switchCase': _switch_case, 'coalesce': _coalesce, 'selectAllCases': _lazy_cases, 'examine': _lazy_cases,
     'rule': _rule, 'dict': _dict, 'dictset': _dict_set, 'val': lambda e, env: e[1], 'neg': _neg,
@@ -239,6 +265,7 @@ def _commas(xs):
 
 
 I.TEXT_EXT.update({
+    'raise': lambda e: '(%s)' % (RAISE_TEXT[e[1]] % I.text(e[2])),
     'and': lambda e: '(%s and %s)' % (I.text(e[1]), I.text(e[2])),
     'or': lambda e: '(%s or %s)' % (I.text(e[1]), I.text(e[2])),
     'not': lambda e: '(not %s)' % I.text(e[1]),
@@ -467,7 +494,113 @@ def _default_if_empty(frame, args, kwargs):
     return I.Lazy(gen())
 
 
+# --- lazily generated sources: their lambdas run only for the elements a consumer asks for ---------
+def _generate(frame, args, kwargs):
+    # "Returns iterator to values beginning from initial value with every next value produced with producer
+    # applied to every previous value, while predicate is true" (selector: "to store every element in the
+    # resulted list"): the n-th element needs the predicate and the selector on it and the producer on its
+    # n - 1 predecessors; the producer on the n-th element is needed only by whoever asks for element n + 1.
+    if not 3 <= len(args) <= 4 or set(kwargs) - {'decycle'}:
+        raise Err('generate')
+    initial, pred, prod = args[:3]
+    sel = args[3] if len(args) > 3 else None
+    decycle = kwargs.get('decycle', False)
+
+    def gen():
+        x = initial
+        past = []
+        while truth(pred(x)):
+            if decycle:             # "return only distinct values": a repeated value ends the sequence
+                if any(I.equal(x, p) for p in past):
+                    return
+                past.append(x)
+            yield x if sel is None else sel(x)
+            x = prod(x)
+    return I.Lazy(gen())
+
+
+def _generate_many(frame, args, kwargs):
+    # "values beginning from initial queue of values with every next value produced with producer applied to
+    # top of queue ... Represents tree traversal, where producer is used to get child nodes"; depthFirst "puts
+    # produced elements to the start of queue".  The children of a node are asked for when the traversal goes
+    # on past that node.  (Breadth first over a tree that branches, the next node is known without the
+    # children of the current one: the driver does not enumerate that combination.)
+    if not 2 <= len(args) <= 3 or set(kwargs) - {'depthFirst'}:
+        raise Err('generateMany')
+    initial, prod = args[:2]
+    sel = args[2] if len(args) > 2 else None
+    depth_first = kwargs.get('depthFirst', False)
+
+    def gen():
+        queue = [initial]
+        while queue:
+            x = queue.pop(0)
+            yield x if sel is None else sel(x)
+            children = prod(x)
+            if not I.is_coll(children):
+                raise Err('generateMany: producer result is not a collection')
+            children = list(children)
+            queue = children + queue if depth_first else queue + children
+    return I.Lazy(gen())
+
+
+def _int(v):
+    if isinstance(v, bool) or not isinstance(v, int):
+        raise Err('not an integer')
+    return v
+
+
+def _range(frame, args, kwargs):
+    # "Returns an iterator over values from start up to stop, not including stop"
+    if len(args) != 2 or kwargs:
+        raise OutOfDomain('range() forms other than range(start, stop)')
+    start, stop = _int(args[0]), _int(args[1])
+    return I.Lazy(x for x in range(start, stop))
+
+
+HORIZON = 9     # an endless source is followed for this many elements; a case that needs more is not judged
+
+
+def _sequence(frame, args, kwargs):
+    # "Returns an iterator to the sequence beginning from start with step": endless
+    if len(args) != 1 or kwargs:
+        raise OutOfDomain('sequence() forms other than sequence(start)')
+    start = _int(args[0])
+
+    def gen():
+        for i in range(HORIZON):
+            yield start + i
+        I.NOTES.add('endless source followed beyond the horizon')
+        raise OutOfDomain('endless source followed beyond the horizon')
+    return I.Lazy(gen())
+
+
+def _zip(frame, args, kwargs):
+    # "the n-th iterable contains the n-th element from each of collections. Stops iterating as soon as any
+    # of the collections is exhausted": the collections are asked in the order written
+    if kwargs or not all(I.is_coll(a) for a in args):
+        raise Err('zip')
+
+    def gen():
+        its = [iter(a) for a in args]
+        while True:
+            row = []
+            for it in its:
+                for x in it:
+                    row.append(x)
+                    break
+                else:
+                    return
+            yield row
+    return I.Lazy(gen())
+
+
 I.LIB.update({
+    'generate': ('f', (1, 2, 3), _generate),
+    'generateMany': ('f', (1, 2), _generate_many),
+    'range': ('f', (), _range),
+    'sequence': ('f', (), _sequence),
+    'zip': ('m', (), _zip),
     'tick': ('f', (), _tick),
     'memorize': ('m', (), _memorize),
     'defaultIfEmpty': ('m', (), _default_if_empty),
@@ -497,6 +630,7 @@ def trace(ast, data=None):
     up to and including finalisation; outcome as interp.run.  (None, None) outside the domain."""
     global TRACE
     TRACE = []
+    del RAISED[:]
     out = I.run(ast, data)
     if out is None:
         return None, None
